@@ -567,3 +567,13 @@ func verifExclusiveSys(p uint16, s uint8, which uint8) int {
 //@ ensures [H] old(rd.spos) <= rd.spos && rd.spos <= rd.sn && rd.spos <= old(rd.spos) + 1
 //@ ensures [H] rd.sfault == nil ==> old(rd.sfault) == nil
 //@ ensures [H] err != nil && rd.sfault == nil ==> (err == io.EOF && rd.spos == rd.sn)
+
+// ---------------------------------------------------------------- option plumbing (C14)
+// ListenTo without options registers the listener with every class switched off and the default buffer size 0
+// (each call starts from fresh options: nothing is carried over from an earlier call)
+//@ func ListenTo
+//@ requires inPort != nil && len(opts) == 0
+//@ modifies inPort.lcSysEx, inPort.lcTimeCode, inPort.lcActiveSense, inPort.lcBuf, inPort.lcCalls
+//@ ensures [P:C14] inPort.lcCalls == old(inPort.lcCalls) + 1 ==> (!inPort.lcSysEx && !inPort.lcTimeCode && !inPort.lcActiveSense && inPort.lcBuf == 0)
+//@ loop 0 invariant -1 <= rangeindex && rangeindex < len(opts)
+//@ loop 0 decreases len(opts) - rangeindex
